@@ -123,14 +123,51 @@ def load_known():
 
 
 # ------------------------------------------------------------------------------------------------
+def _report_kani_violations(prop, kviol, idx=0):
+    os.makedirs(REPLAY, exist_ok=True)
+    for h in kviol:
+        idx += 1
+        rp = os.path.join(REPLAY, f"{prop}-{idx}.json")
+        with open(rp, "w") as fh:
+            json.dump(dict(property=prop, obligation=h["oid"], engine="kani", harness=h["harness"],
+                           verifier_output=h["output"], witness=h.get("witness")), fh, indent=1)
+        tail = "" if (h.get("witness") and h["witness"].get("found")) else " no-failing-input-found"
+        print(f"FAILED-OBLIGATION {h['oid']} [kani harness {h['harness']}] {h.get('summary', '')}")
+        print(f"VIOLATION property={prop} replay={rp}{tail}")
+
+
 def check_property(prop, tier, seed):
+    """A failed Kani harness is a concrete refutation on the real compiled code: it is reported as a violation even when the
+    deductive side ends undecided (lost anchor, unsupported construct) - the two verdicts are independent."""
+    holder = {}
+    try:
+        return _check_property(prop, tier, seed, holder)
+    except Undecided as e:
+        kres = holder.get("kres")
+        if kres:
+            known_ids = {k["obligation"] for k in load_known() if k.get("property") == prop and k.get("status") == "known"}
+            kviol = [h for h in kres["failed"] if h["oid"] not in known_ids]
+            if kviol:
+                print(f"NOTE deductive side undecided ({e}); the failing harnesses below are independent of it")
+                write_undecided_evidence(prop, tier, seed, f"{e}; plus {len(kviol)} failing Kani harnesses", violations=len(kviol))
+                _report_kani_violations(prop, kviol)
+                return 1
+        raise
+
+
+def _check_property(prop, tier, seed, holder):
     t0 = time.time()
     if prop not in plan.PLAN:
         raise Undecided(f"property {prop} has no check (see MANIFEST.not_applicable)")
     unit_names = plan.units_for(prop, tier)
     harnesses = plan.kani_for(prop, tier)
     # 1. generate (sequential: shares the expansion cache) then verify in parallel
-    units = [generate(u) for u in unit_names]
+    units, gen_undecided = [], []
+    for un in unit_names:
+        try:
+            units.append(generate(un))
+        except Undecided as e:
+            gen_undecided.append(str(e))
     results = {}
     with ThreadPoolExecutor(max_workers=max(1, min(8, len(units) + 1))) as ex:
         futs = {ex.submit(verus.run_verus, u, u.path): u for u in units}
@@ -138,6 +175,9 @@ def check_property(prop, tier, seed):
         for f, u in futs.items():
             results[u.name] = f.result()
         kres = kfut.result() if kfut else None
+    holder["kres"] = kres
+    if gen_undecided:
+        raise Undecided("; ".join(gen_undecided[:4]))
     # stability retry: a function whose query hit the resource limit is re-run under other SMT seeds; a proof found under
     # any seed is a proof (recorded as unstable in the evidence), a real failure under another seed is reported as such
     unstable = []
@@ -310,15 +350,7 @@ def check_property(prop, tier, seed):
         tail = "" if (w and w.get("found")) else " no-failing-input-found"
         print(f"FAILED-OBLIGATION {oid} [{d.msg}] at {src} :: {d.text[:160]}")
         print(f"VIOLATION property={prop} replay={rp}{tail}")
-    for h in kviol:
-        idx += 1
-        rp = os.path.join(REPLAY, f"{prop}-{idx}.json")
-        with open(rp, "w") as fh:
-            json.dump(dict(property=prop, obligation=h["oid"], engine="kani", harness=h["harness"],
-                           verifier_output=h["output"], witness=h.get("witness")), fh, indent=1)
-        tail = "" if (h.get("witness") and h["witness"].get("found")) else " no-failing-input-found"
-        print(f"FAILED-OBLIGATION {h['oid']} [kani harness {h['harness']}] {h.get('summary', '')}")
-        print(f"VIOLATION property={prop} replay={rp}{tail}")
+    _report_kani_violations(prop, kviol, idx)
     return 1
 
 
@@ -355,11 +387,11 @@ def locate_source(info):
     return best[1] if best else f"{crate}::{fn}"
 
 
-def write_undecided_evidence(prop, tier, seed, reason):
+def write_undecided_evidence(prop, tier, seed, reason, violations=0):
     os.makedirs(EVID, exist_ok=True)
     ev = dict(property_id=prop, tier=tier, seed=seed, level="other",
               coverage=dict(explanation=f"UNDECIDED: {reason}", obligations=0, discharged=0),
-              wall_s=0.0, violations=0)
+              wall_s=0.0, violations=violations)
     with open(os.path.join(EVID, f"{prop}.json"), "w") as fh:
         json.dump(ev, fh, indent=1)
 
